@@ -11,6 +11,8 @@ TRUSTED = [
     'net/http (ReadRequest), encoding/base64, gorilla/websocket, uTLS (ClientHello generation), common.Copy over a real TCP stack (half-close, RST) are black boxes sampled by the run',
 ]
 ASSUMPTIONS = [
+    'exactly-one-outcome oracle: per connection the redirect target is dialled at most once (also after a session has ended), and when it is dialled the peer receives nothing but the target\'s bytes; scenarios: one per early exit of dispatchConnection (first-packet error with and without redirect, AuthFirstPacket error, unknown encryption byte, admin and proxy finishHandshake with a failing Write on the peer connection (direct transport), admin session ended by a hang-up, unknown proxy method, unauthorised UID; a refused GetSession is exercised by C07), dial failure and first-write failure of goWeb',
+    'forged first packets (never a server byte): each of the 14 small-order X25519 encodings and the 5 unmasked variants as ephemeral value, block sealed under the all-zero key, direct and WebSocket transport',
     'a net.Conn delivers the bytes the peer sent in order, in arbitrary non-empty pieces, then EOF or silence (read_full_seg_flat proves the model independent of the segmentation)',
     'half-close (peer sends FIN after its request) and targets that close before having read everything are compared in relaxed form: target input and peer output must be prefixes (observation O2, DESIGN section 7) - not alarmed',
     'users whose GetSession is refused (session cap) are C15 matter; rates <= 0 (F8) are C18 matter: not generated here',
@@ -312,6 +314,9 @@ def build_cases(ctx, packets):
     for name, (kind, pkt, may) in sorted(packets.items()):
         if kind == 'tls' and may:
             add('session-write-fails/' + name.split('_', 2)[2], pkt, may=True, pwfail=1)
+        if kind == 'ws' and may:
+            # WebSocket: write 1 is the 101 response of net/http + gorilla (black box), write 2 the 60-byte reply
+            add('session-write-fails/ws-' + name.split('_', 2)[2], pkt, may=True, pwfail=2)
     # D. truncated / mutated / replayed Cloak hellos
     okpk = [(n, p) for n, p in sorted(packets.items()) if n.endswith('ok_bypass') or n.endswith('ok_dbuser')]
     for name, (kind, pkt, may) in okpk:
@@ -455,14 +460,14 @@ def oracle(c, o):
         k = next((i for i in range(min(len(reply), len(fpeer))) if reply[i] != fpeer[i]), min(len(reply), len(fpeer)))
         return 'relayed-and-answered', ('the connection was relayed to the redirect target AND the peer received %d bytes the target never sent '
                                         '(first at offset %d: %s...): the server answered a relayed connection itself' % (len(fpeer) - k, k, fpeer[k:k + 24].hex()))
-    if cls == 'session':
-        if not c['meta']['may_session']:
-            return 'server-byte', 'the server wrote %d bytes of its own to a peer that did not present a valid fresh handshake of an authorised user' % len(peer)
-        return None
+    if cls == 'session' and not c['meta']['may_session']:
+        return 'server-byte', 'the server wrote %d bytes of its own to a peer that did not present a valid fresh handshake of an authorised user' % len(peer)
     if c.get('pwfail') and o.get('pwf') == '1':
         # the server's reply could not be written: the connection must end up closed, nothing else may happen
-        if o['uns'] == '1' or o['fin'][0] != '1':
-            return 'wedged', 'the reply to an authenticated peer could not be written and the connection was left open and unserved'
+        if o['uns'] == '1' or o['pc'] != '1' or o['fin'][0] != '1':
+            return 'wedged', 'the reply to an authenticated peer could not be written and the connection was left open (the peer waits for ever)'
+        return None
+    if cls == 'session':
         return None
     if c['meta']['may_session'] and cls == 'close' and o['peer'] == '-':
         return None     # sealed payload of an authorised user (e.g. a WebSocket upgrade that then fails): not this property
@@ -556,8 +561,9 @@ def compare(c, o, tb, mline):
         return 'redirect dials: model %d (%s), implementation %s (after the hang-up %s)' % (1 if m['out'] == 'web' else 0, m['out'], o['dials'], o.get('fdials'))
     if m['out'] == 'session-wfail':
         # finish_tls with a failing Write: nothing reaches the peer, the responder closes the connection, the function returns
-        if (cls, o['pc'], o['ret'], o.get('pwf')) != ('close', '1', '1', '1'):
-            return 'failed reply write: model closed/returned, implementation %s pc=%s ret=%s pwf=%s' % (cls, o['pc'], o['ret'], o.get('pwf'))
+        want = 'close' if m['tr'] == 'tls' else 'session'      # WebSocket: the 101 response has reached the peer
+        if (cls, o['pc'], o['ret'], o.get('pwf')) != (want, '1', '1', '1'):
+            return 'failed reply write: model %s/closed/returned, implementation %s pc=%s ret=%s pwf=%s' % (want, cls, o['pc'], o['ret'], o.get('pwf'))
         return None
     if m['out'] == 'session' and m['tr'] == 'ws' and cls == 'close' and c['meta']['cat'].startswith('cloak/'):
         return None      # authenticated WebSocket request whose (mutated) upgrade headers gorilla refuses: not C09
@@ -748,6 +754,6 @@ def replay(ctx, verdict):
 
 MANIFEST = dict(
     technique='Coq proofs over all byte streams about hand-written models of readFirstPacket / the ClientHello parsers / the dispatch decision; models tied to the code by differential execution of the real dispatchConnection (scripted segmenting peer, scripted redirect target) against the extracted OCaml model, plus a model-independent oracle written from the property text',
-    level_text='C09_consumed_exact, C09_target_gets_everything, C09_segmentation, C09_parsers_total, C09_no_server_byte are proved in Coq for every peer byte stream, every ending and every buffer size >= 5 (the generated constant 3000 is an instance), every X25519/AES-GCM/http black box. The models are hand-written; on every run ~2000 (quick) scenarios - every first byte, every record-length class, genuine browser hellos in 9 authorisation variants, truncated/mutated/replayed hellos, HTTP heads with bogus hidden headers and 2990..3010-byte lines, under up to 6 segmentations and 8 target scripts incl. dial and write failure - are executed on the real dispatchConnection and on the extracted model and compared byte for byte (target input, peer output, who closed).',
+    level_text='C09_consumed_exact, C09_target_gets_everything, C09_segmentation, C09_parsers_total, C09_no_server_byte, C09_one_outcome (relayed or answered, never both; relayed exactly on a Redirect decision or a redirecting first-packet error), C09_unknown_method_is_web are proved in Coq for every peer byte stream, every ending and every buffer size >= 5 (the generated constant 3000 is an instance), every X25519/AES-GCM/http black box. The models are hand-written; on every run ~2000 (quick) scenarios - every first byte, every record-length class, genuine browser hellos in 9 authorisation variants, truncated/mutated/replayed hellos, HTTP heads with bogus hidden headers and 2990..3010-byte lines, under up to 6 segmentations and 8 target scripts incl. dial and write failure - are executed on the real dispatchConnection and on the extracted model and compared byte for byte (target input, peer output, who closed).',
     level_note='Trusted: Coq kernel, extraction, the scripted in-memory connections (deadline emulation), Go tables for X25519 and for net/http+base64. Half-close scenarios are compared in relaxed form (observation O2).',
     design_ref='DESIGN.md section 6, C09')
